@@ -323,3 +323,49 @@ _SIXTH_ROUND = {
 }
 for _pid, _extra in _SIXTH_ROUND.items():
     CLAIMS[_pid]['text'] = CLAIMS[_pid]['text'] + ' Also: ' + _extra
+
+
+# rules added in the seventh round
+_KERNEL = ('The kernel core every suspending operation rests on (rule `kernel`, shared with '
+           'C01/C03/C15): postpone()/suspend() wake their caller by a signal made for this '
+           'pause and withdraw it on every exit; a cancellation that loses the race against '
+           'the end of its task is disarmed; every notification class lets go of exactly '
+           'what it was given; dated activations are queued under the date as given and '
+           'optional dates tested with `is None`; no object keeps the loop of an earlier run.')
+_SEVENTH_ROUND = {
+    'C01': 'The exit predicate of connectives over dates (`(time >= a) & (time >= b)`); no '
+           'rounding, conversion or tolerance where dates and delays travel. ' + _KERNEL,
+    'C02': _KERNEL,
+    'C03': 'A cancellation of the owning task or a forced close arriving while a regularly '
+           'left block waits in __aexit__ leaves it as an exception on every path.',
+    'C05': 'A failed task keeps the very exception its handler caught (no substitute); a '
+           'foreign signal arriving during a regular exit leaves __aexit__ as an exception.',
+    'C06': 'A failed task keeps the very exception its handler caught; a cancellation that '
+           'arrives while the task waits at the end of a block is never turned into a normal '
+           'return of __aexit__.',
+    'C07': 'A foreign signal arriving during the regular exit of a block is never dropped.',
+    'C08': 'Every subscription has a signal constructed for it; the loop queues the one '
+           'wake-up of a time condition under the date as given. ' + _KERNEL,
+    'C09': _KERNEL, 'C10': _KERNEL,
+    'C11': _KERNEL,
+    'C12': 'The tracked comparisons the levels are waited for through trigger exactly when '
+           'they hold and are evaluated afresh whenever asked. ' + _KERNEL,
+    'C13': 'The closing loops of a scope walk copies (an aborted transfer is reached by the '
+           'abort); no rounding or tolerance in the pipe arithmetic. ' + _KERNEL,
+    'C14': 'No rounding, conversion or tolerance on dates. ' + _KERNEL,
+    'C15': 'No attribute store of the package keeps the loop read from the state handle '
+           '(one named exception). ' + _KERNEL,
+    'C16': 'A failing activity is recorded whatever it failed with; first() leaves its scope '
+           'without another suspension once the results are out. ' + _KERNEL,
+    'C17': 'With children, Concurrent.__new__ never makes an instance of the class as '
+           'called.',
+    'C18': 'A pending interrupt is what a process is resumed with whenever there is one; the '
+           'value of a condition is a snapshot taken when it fires; what a process yields is '
+           'only awaited. ' + _KERNEL,
+    'C19': 'A pending interrupt (the eviction notice) wins over whatever else ended the '
+           'wait of the victim. ' + _KERNEL,
+    'C20': 'The wake-up of a postponement is a signal of its own, queued behind what is '
+           'runnable now. ' + _KERNEL,
+}
+for _pid, _extra in _SEVENTH_ROUND.items():
+    CLAIMS[_pid]['text'] = CLAIMS[_pid]['text'] + ' Seventh round: ' + _extra
